@@ -277,6 +277,39 @@ def run_case(case, ctx):
                 if ok and v2 != got:
                     ctx.violation("parsimony_score|depends-on-root-or-child-order", "%r vs %r" % (got, v2),
                                   dict(det, redrawn=ref.to_newick(s2)))
+            # ---- the SAME tree and the SAME matrix object again with the other gap treatment / other weights, and after the
+            # matrix was edited in place: the score must follow the arguments of the call, not what an earlier call saw
+            if rng.random() < 0.6:
+                gam2 = not gam
+                want2_chars = oracle_scores(spec, rows, dtype, gam2)
+                w2 = [rng.choice([0, 1, 3]) for _ in range(ncol)] if rng.random() < 0.5 else None
+                want2 = sum(a * b for a, b in zip(want2_chars, w2 or [1] * ncol))
+                ok, got2 = core.call(ctx, "parsimony_score", parsimony.parsimony_score, tree, m, gaps_as_missing=gam2, weights=w2, detail=det)
+                ctx.ev("repeat-call-compared")
+                if ok and got2 != want2:
+                    ctx.violation("parsimony_score|not-pure|same-matrix-object-other-options",
+                                  "same tree and matrix object scored with gaps_as_missing=%s after gaps_as_missing=%s: %r, minimum is %r" % (gam2, gam, got2, want2),
+                                  dict(det, second_call={"gaps_as_missing": gam2, "weights": w2 if ncol <= 30 else None}))
+                # in-place edit of one cell
+                victim = rng.choice(labels)
+                col = rng.randrange(ncol)
+                table, fund, _ = TYPES[dtype]
+                newsym = rng.choice(fund)
+                seq = m[ns.get_taxon(victim)]
+                try:
+                    seq[col] = m.default_state_alphabet[newsym]
+                except Exception:
+                    seq = None
+                if seq is not None:
+                    rows3 = dict(rows)
+                    rows3[victim] = rows[victim][:col] + newsym + rows[victim][col + 1:]
+                    want3 = sum(oracle_scores(spec, rows3, dtype, gam))
+                    ok, got3 = core.call(ctx, "parsimony_score", parsimony.parsimony_score, tree, m, gaps_as_missing=gam, detail=det)
+                    ctx.ev("repeat-call-compared")
+                    if ok and got3 != want3:
+                        ctx.violation("parsimony_score|not-pure|matrix-edited-in-place-between-calls",
+                                      "after setting cell (%s, %d) to %s the same tree/matrix objects score %r, minimum is %r" % (victim, col, newsym, got3, want3), det)
+                    rows = rows3
         # fitch_up_pass must run on a freshly scored binary rooted tree without error (reach, no oracle claimed)
         if all(len(nd[3]) in (0, 2) for nd in ref.preorder(spec)):
             core.call(ctx, "fitch_up_pass", parsimony.fitch_up_pass, tree.preorder_node_iter())
